@@ -42,4 +42,8 @@ Theorem C02_fullmove_machine_step : forall K p m, wrap64 (fullmove (makemove K p
 Proof. exact makemove_fullmove_wraps. Qed.
 Theorem C02_fullmove_machine_null : forall K p, wrap64 (fullmove (makenull K p)) = wrap64 (fullmove p).
 Proof. exact makenull_fullmove_wraps. Qed.
+Theorem C02_fullmove_machine_history : forall K ms p,
+  wrap64 (fullmove (fold_left (makemove K) ms p)) = mach_trace K (wrap64 (fullmove p)) p ms.
+Proof. exact run_fullmove_wraps. Qed.
+Print Assumptions C02_fullmove_machine_history.
 Print Assumptions C02_fullmove_machine_step. Print Assumptions C02_fullmove_machine_null.
